@@ -392,6 +392,9 @@ TRUSTED_BASE = [
 ]
 
 
+SKIP = object()   # returned by a projection of the MODEL result: scenario not comparable (e.g. simultaneous events)
+
+
 class Suite:
     """One scenario family as used by one property.
     generate(rng, tier) -> [Scenario]; project(sc, ints) -> comparable; monitor(sc, ImplResult) -> [(what, key)]"""
@@ -425,6 +428,7 @@ def run_suite(pid, suite, scenarios, binaries):
     t_model = time.time() - t0
     disagreements = 0
     monitor_fail = 0
+    skipped = 0
     verdicts = {}
     for sc, ir, mr in zip(scenarios, impl, model):
         verdicts[ir.verdict] = verdicts.get(ir.verdict, 0) + 1
@@ -438,15 +442,18 @@ def run_suite(pid, suite, scenarios, binaries):
                 disagreements += 1
                 continue
             try:
-                pi = suite.project(sc, _ints(ir.vals))
+                pi = suite.project(sc, _ints(ir.vals) if suite.impl_ints else ir.vals)
             except Exception as e:  # malformed implementation output is a disagreement, not a crash of the check
                 pi = "unparsable: %r" % (e,)
             pm = suite.project(sc, mr)
+            if pm is SKIP:
+                skipped += 1
+                continue
             if pi != pm:
                 failures.append(Failure("correspondence", sc, "projection differs: impl %s / model %s" % (short(pi), short(pm)), ir, mr))
                 disagreements += 1
     stats = {"suite": suite.name, "scenarios": len(scenarios), "disagreements": disagreements,
-             "monitor_failures": monitor_fail, "impl_verdicts": verdicts,
+             "monitor_failures": monitor_fail, "impl_verdicts": verdicts, "skipped_ambiguous": skipped,
              "impl_s": round(t_impl, 2), "model_s": round(t_model, 2)}
     return failures, stats, impl, model
 
